@@ -245,6 +245,16 @@ class Tr:
             kind = self.scalar_kind(f.sub_fields[0], what + "{}")
         else:
             self.die(f"{what}: shape {f.shape}")
+        # the model's json type has no bytes: binary data (YAML '!!binary') must not be decoded into text or a number
+        for probe in (b"1", [b"1"]):
+            try:
+                cls.parse_obj({f.alias: probe})
+                bad = True
+            except pydantic.ValidationError as e:
+                locs = [tuple(x["loc"])[:1] for x in e.errors()]
+                bad = (f.alias,) not in locs and ("__root__",) not in locs
+            if bad:
+                self.die(f"{what}: {probe!r} is accepted (binary data is decoded; the model knows no such value)")
         if f.shape == pf.SHAPE_LIST or "UList" in kind:
             # Parse.v: a list-valued field takes an array (JArr).  A set (YAML '!!set') has no order: pydantic alone
             # would turn it into a list in arbitrary order.  The repair sits in a pre root validator, so probe the class.
